@@ -6,7 +6,8 @@ From ClapModel Require Import Base.Bytes Base.Machine Base.Utf8.
 From ClapModel Require Import Parse.Cmd Parse.Build Parse.Valid Parse.Matcher Parse.Errors Parse.Validator Parse.Parser.
 From ClapModel Require Import ParseProofs.Safe ParseProofs.Invariant ParseProofs.Totality
                               ParseProofs.ValidateTotal ParseProofs.Relations ParseProofs.TotalityMain
-                              ParseProofs.Sites ParseProofs.SitesComplete ParseProofs.FlagSubClass.
+                              ParseProofs.Sites ParseProofs.SitesComplete ParseProofs.FlagSubClass
+                              ParseProofs.FsTotality.
 From ClapModel Require Import Errors.RenderModel Errors.RenderLink.
 From ClapModel Require Gen.ErrorCtx.
 From ClapModel Require Gen.ParseSites.
@@ -233,3 +234,59 @@ Theorem C01_no_panic_flat_refuted :
   /\ parse_top hyphen_cmd [[112]; [45; 83; 122]; [45; 255]] = OPanicked 920.
 Proof. exact unconsumed_skip_witness. Qed.
 Print Assumptions C01_no_panic_flat_refuted.
+
+(** ---------- round 4: the positive theorem for definitions WITH short flag-subcommands ----------
+    ParseProofs/FsInvariant.v (the traversal of Invariant.v generalised over the resume state
+    [flag_subcmd_at]/[flag_subcmd_skip], without the level hypothesis "no short flag-subcommands"; the short
+    cluster, [parse_short_arg] and the token loop with the resume state; the first iteration of a level that is
+    entered by re-reading a cluster) and ParseProofs/FsTotality.v (recursion over the tree, class). *)
+
+(** MAIN THEOREM for the class [flag_sub_class] (boolean; computed, like [valid], on the tree as the parser builds
+    it): no node carries the internal Built flag, and every level a cluster can re-enter -- the built child of a
+    subcommand that has a short flag or short-flag alias -- has no short flag-subcommands of its own, and its
+    first positional neither allows negative numbers nor (unless it is `last`) hyphen values.  Arguments of
+    any shape (options, optional values, require_equals, multiple values, Count/Append, default_missing_values,
+    groups, relations), any settings, any nesting of the short flag-subcommands BELOW other subcommands are
+    allowed.  For every valid definition of the class and EVERY token list, parsing neither reaches a panic
+    site (in particular not debug_assert_eq!(advance_by(skip)) = 920, not the unsigned subtraction
+    cur_idx - flag_subcmd_at = 243) nor runs out of fuel.  Every [plain] definition is in the class
+    ([C01_plain_in_flag_sub_class]), so this subsumes [C01_no_panic]. *)
+Theorem C01_no_panic_flag_subs : forall c0 toks,
+  flag_sub_class c0 = true -> valid c0 = true ->
+  match do_parse c0 toks with OPanicked _ | OOutOfFuel => False | _ => True end.
+Proof. exact do_parse_total_fs. Qed.
+Print Assumptions C01_no_panic_flag_subs.
+
+(** every row [Modelled l] of the panic-site table ([C01_sites_match]: the sites of the Rust source today) is dead
+    for the class too -- in particular the two sites of the resume logic, parser.rs `self.cur_idx.get() - flag_subcmd_at`
+    (243) and `debug_assert_eq!(short_arg.advance_by(skip), Ok(()))` (920), which [C01_sites_dead] excludes only for
+    definitions without short flag-subcommands *)
+Theorem C01_sites_dead_flag_subs : forall c0 toks, flag_sub_class c0 = true -> valid c0 = true ->
+  forall n, In n modelled_sites -> do_parse c0 toks <> OPanicked n.
+Proof. exact sites_dead_fs. Qed.
+Print Assumptions C01_sites_dead_flag_subs.
+
+(** the class is an extension of [plain] (on valid definitions) *)
+Theorem C01_plain_in_flag_sub_class : forall c0, plain c0 = true -> valid c0 = true -> flag_sub_class c0 = true.
+Proof. exact plain_in_class. Qed.
+Print Assumptions C01_plain_in_flag_sub_class.
+
+(** the same through [try_get_matches_from] *)
+Theorem C01_no_panic_flag_subs_top : forall c0 argv,
+  (forall b, flag_sub_class (c0 <| c_bin_name := b |>) = true) -> flag_sub_class c0 = true ->
+  (forall b, valid (c0 <| c_bin_name := b |>) = true) -> valid c0 = true ->
+  match parse_top c0 argv with OPanicked _ | OOutOfFuel => False | _ => True end.
+Proof. exact parse_top_total_fs. Qed.
+Print Assumptions C01_no_panic_flag_subs_top.
+
+(** Non-vacuity and class boundary: two definitions with short flag-subcommands (outside [plain]) satisfy the
+    hypotheses under every program name; the three recorded witnesses of C01-flag-subcmd-skip (stale [at] through
+    nesting; unconsumed skip through a hyphen-value positional; both) are outside the class. *)
+Theorem C01_flag_sub_class_satisfiable :
+  (flag_sub_class candidate_cmd = true /\ valid candidate_cmd = true /\ plain candidate_cmd = false)
+  /\ (flag_sub_class fs_wide_cmd = true /\ valid fs_wide_cmd = true /\ plain fs_wide_cmd = false
+      /\ (forall b, flag_sub_class (fs_wide_cmd <| c_bin_name := b |>) = true)
+      /\ (forall b, valid (fs_wide_cmd <| c_bin_name := b |>) = true))
+  /\ flag_sub_class stale_cmd = false /\ flag_sub_class hyphen_cmd = false /\ flag_sub_class hyphen2_cmd = false.
+Proof. exact flag_sub_class_examples. Qed.
+Print Assumptions C01_flag_sub_class_satisfiable.
